@@ -1,6 +1,6 @@
 (** C14 - correspondence (bit-exact model vs DecisionTree::fit / predict / feature_importance /
     iter_nodes) and the property oracle (exact checker [chk_tree]) on the implementation's output. *)
-From Coq Require Import List NArith ZArith QArith Bool Arith Floats SpecFloat.
+From Coq Require Import List NArith ZArith QArith Bool Arith Floats SpecFloat FMapPositive.
 From LinfaVerif Require Export Common.Num Common.QF Common.B32 Common.Run C14.Model.
 Import ListNotations.
 Local Close Scope Q_scope.
@@ -9,7 +9,7 @@ Local Open Scope nat_scope.
 Record case := {
   c_id : N;
   c_X : list (list float);          (* records (f64) *)
-  c_y : list N;                     (* class index of every row; label order = index order *)
+  c_y : list N;                     (* class of every row = rank of its label in the Ord of the label type *)
   c_w : list float;                 (* weight_for(i): f32 values, widened exactly *)
   c_ncls : N;
   c_nfeat : N;
@@ -22,7 +22,9 @@ Record case := {
   c_le : bool;                      (* which prediction / threshold rule the tree under test is expected to
                                        implement: true = `<=` (code as it stands, commit 472304f),
                                        false = `<` (before that commit) *)
-  c_model : bool;                   (* fit is reproducible bit for bit (two classes, Gini): run the model *)
+  c_model : bool;                   (* run the model of fit and compare the trees bit for bit *)
+  c_log2 : list (Z * Z);            (* entropy: (bits of p, bits of `p.log2()` as returned by the Rust run time)
+                                       for every argument the f32 model passes to log2 *)
   (* implementation outputs *)
   c_tree : tree float;              (* root_node() walked through children()/split()/prediction()/depth() *)
   c_dangling : N;                   (* number of children hanging under nodes flagged as leaves *)
@@ -53,17 +55,53 @@ Definition hyper_of (c : case) : hyper (W := spec_float) (X := float) :=
      h_mws := to32 (c_mws c); h_mwl := to32 (c_mwl c);
      h_mid := c_mid c; h_eps := c_eps c; h_two := two64; h_le := c_le c |}.
 
+(** ** f32::log2 as an oracle table
+
+    `f32::log2` is a libm call, not an IEEE operation.  The harness passes the values the Rust run
+    time returned, as bit patterns; every entry is checked against a verified enclosure of
+    ln p / ln 2 ([log2_entry_ok]: within 2^-23 |value|, i.e. at most two units in the last place,
+    and exactly 0 at p = 1).  An argument missing from the table yields +infinity, which makes the
+    entropy -infinity, the candidate the best one and the reported decrease infinite or NaN: the
+    trees then differ (corr bit 1) unless the poisoned node is pruned away. *)
+Definition b32_key (x : spec_float) : positive :=
+  match x with
+  | S754_finite s m e => (m * 4096 + Z.to_pos (e + 1024) * 2 + (if s then 1 else 2))%positive
+  | _ => 1%positive
+  end.
+Definition log2_map (c_tab : list (Z * Z)) : PositiveMap.t spec_float :=
+  fold_left (fun m e => PositiveMap.add (b32_key (b32_of_bits (fst e))) (b32_of_bits (snd e)) m)
+            c_tab (PositiveMap.empty _).
+Definition log2_tab (m : PositiveMap.t spec_float) (p : spec_float) : spec_float :=
+  match PositiveMap.find (b32_key p) m with Some v => v | None => S754_infinity false end.
+
+Definition log2_entry_ok (e : Z * Z) : bool :=
+  let p := b32_of_bits (fst e) in
+  let v := b32_of_bits (snd e) in
+  match p with
+  | S754_finite false _ _ =>
+      sf_finite v &&
+      (let pq := SF2Qd p in
+       let vq := SF2Qd v in
+       let tol := (Qabs' vq * (1 # 8388608))%Q in
+       let d := ESub (EQ vq) (EDiv (ELn (EQ pq)) (ELn (EQ 2))) in
+       nonneg (ESub (EQ tol) d) && nonneg (EAdd (EQ tol) d))
+  | _ => false
+  end.
+
+Definition imp32 (c : case) : freq_tab (W := spec_float) -> spec_float :=
+  if c_entropy c then entropy o32 (log2_tab (log2_map (c_log2 c))) else gini o32.
+
 Definition model_fit (c : case) : option (tree float) :=
   if c_f32 c then
     option_map (tmap SF2Prim)
-      (fit o32 o32 (fun x => x) (gini o32)
+      (fit o32 o32 (fun x => x) (imp32 c)
            {| h_maxdepth := option_map N.to_nat (c_maxdepth c);
               h_mws := to32 (c_mws c); h_mwl := to32 (c_mwl c);
               h_mid := to32 (c_mid c); h_eps := to32 (c_eps c); h_two := to32 two64; h_le := c_le c |}
            (map (map to32) (c_X c)) (map N.to_nat (c_y c)) (map to32 (c_w c))
            (N.to_nat (c_ncls c)) (N.to_nat (c_nfeat c)))
   else
-    fit o32 o64 SF2Prim (gini o32) (hyper_of c) (c_X c) (map N.to_nat (c_y c)) (map to32 (c_w c))
+    fit o32 o64 SF2Prim (imp32 c) (hyper_of c) (c_X c) (map N.to_nat (c_y c)) (map to32 (c_w c))
         (N.to_nat (c_ncls c)) (N.to_nat (c_nfeat c)).
 
 (* importances are computed in F *)
@@ -91,10 +129,11 @@ Definition corr_code (c : case) : N :=
  (N.lor (flag (list_eqb N.eqb (map (fun x => N.of_nat (predict o64 (c_le c) t x)) (c_X c ++ c_query c)) (c_pred c)) 2)
  (N.lor (flag (list_eqb f64_biteq (model_mean c) (c_mean c)
                && list_eqb f64_biteq (model_importance c) (c_importance c)) 4)
- (flag (negb (N.eqb (c_dangling c) 0)
+ (N.lor (flag (negb (N.eqb (c_dangling c) 0)
                || list_eqb (fun a b => N.eqb (fst a) (fst b) && Bool.eqb (snd a) (snd b))
                         (map (fun nd => (N.of_nat (tdepth nd), is_leaf nd)) (iter_nodes t)) (c_iter c)
-               && n_eqb (max_depth_of t) (c_maxd c) && n_eqb (num_leaves t) (c_nleaves c)) 8))).
+               && n_eqb (max_depth_of t) (c_maxd c) && n_eqb (num_leaves t) (c_nleaves c)) 8)
+        (flag (forallb log2_entry_ok (c_log2 c)) 16)))).
 
 (* ---- property oracle ---- *)
 Definition tol_dec : Q := 1 # 262144.                 (* 2^-18 *)
